@@ -5,6 +5,7 @@ import Rcgen.Spec.Pem
 import Rcgen.Model.CsrParse
 import Rcgen.Model.Keys
 import Rcgen.Model.Cli
+import Rcgen.Model.Ctor
 import Rcgen.Spec.Validate
 /- line-protocol driver: one request per line, one response per line -/
 namespace Driver
@@ -286,6 +287,31 @@ def handle (op : String) (args : List Sexp) : R Sexp := do
     match spkiAlgLookup b (← der.asBytes) with
     | some a => pure (.list [.atom "ok", .atom (algName a)])
     | none => pure (.list [.atom "err", .atom "UnsupportedSignatureAlgorithm"])
+  | "cidr-str", [t] => do
+    match cidrFromStr (← t.asBytes) with
+    | some (.v4 a m) => pure (.list [.atom "ok", .atom "v4", ofBytes a, ofBytes m])
+    | some (.v6 a m) => pure (.list [.atom "ok", .atom "v6", ofBytes a, ofBytes m])
+    | none => pure (.atom "err")
+  | "cidr-prefix", [a, n] => do
+    match CidrSubnet.fromAddrPrefix (← a.asBytes) (← n.asNat) with
+    | .v4 a m => pure (.list [.atom "ok", .atom "v4", ofBytes a, ofBytes m])
+    | .v6 a m => pure (.list [.atom "ok", .atom "v6", ofBytes a, ofBytes m])
+  | "serial-u64", [n] => do
+    let b := serialOfU64 (← n.asNat)
+    pure (.list [.atom "ok", ofBytes b, ofBytes (serialDisplay b)])
+  | "serial-display", [b] => do pure (.list [.atom "ok", ofBytes (serialDisplay (← b.asBytes))])
+  | "ymd", [y, m, d] => do
+    match dateTimeYmd (← y.asInt) (← m.asNat) (← d.asNat) with
+    | some dt => pure (.list [.atom "ok", ofInt dt.epochSeconds, ofInt dt.offset, ofNat dt.nanos])
+    | none => pure (.atom "panic")
+  | "params-new", [cfg, .list names] => do
+    match paramsNew ((← cfg.asAtom) != "nocrypto") (← names.mapM Sexp.asBytes) with
+    | .ok p => pure (.list [.atom "ok", encParams p])
+    | .error e => pure (.list [.atom "err", .atom (errName e)])
+  | "acme", [d] => do
+    match acmeIdentifier (← d.asBytes) with
+    | some e => pure (.list [.atom "ok", .list (e.oid.map ofNat), ofBool e.critical, ofBytes e.content])
+    | none => pure (.atom "panic")
   | "classify-san", [t] => do
     match classifySan (← t.asBytes) with
     | .ok s => pure (.list [.atom "ok", encSan s])
